@@ -177,6 +177,11 @@ func (ex *Exec) intrinsic(g *G, fr *Frame, fn *ssa.Function, args []Value, resul
 		if len(ex.res.Events) < 200 {
 			ex.res.Events = append(ex.res.Events, msg)
 		}
+	case "verifNoteU":
+		noArm()
+		if len(ex.res.Events) < 200 {
+			ex.res.Events = append(ex.res.Events, ex.tagOf(args, 0)+"="+ex.valString(args[1]))
+		}
 	case "verifSetOwner":
 		ex.curOwner = ex.concInt(args[0].(*Term), "owner")
 	case "verifForbidOwner":
